@@ -3,7 +3,7 @@
     Histories: [Call md path k | SetTable t | CleanupTick | ConnShutdown u] from any state. *)
 From Coq Require Import String List NArith Bool.
 From Fabio Require Import Lib.Outcome Lib.Bytes Model.GrpcPool Proofs.GrpcPool Model.GrpcTransport Proofs.GrpcTransport
-  Model.GrpcKeepalive Proofs.GrpcKeepalive.
+  Model.GrpcKeepalive Proofs.GrpcKeepalive Model.GrpcListeners Proofs.GrpcListeners.
 From Fabio Require Model.Lookup Proofs.Lookup.
 Import ListNotations.
 Local Open Scope N_scope.
@@ -536,3 +536,152 @@ Theorem C16_keepalive_variant_strikes_out :
      = [(true, [bs "first"; bs "second"], [(bs "x-events", [bs "2"])], 0, 4, 1, 0)].
 Proof. exact keepalive_variant_strikes_out. Qed.
 Print Assumptions C16_keepalive_variant_strikes_out.
+
+(* ---- several gRPC listeners in one process (Model/GrpcListeners.v, main.go:376-405 startServers) ----
+   A process = the gRPC entries of proxy.addr in order, [tls] = which of them have a cert source;
+   startServers builds a proxy of its own for each (interceptor, director, connection pool with
+   its cleanup loop) from the tls.Config of THAT entry; the routing table is the one table of the
+   process.  Histories: [LCall i md path k] (a call arriving at listener i) | [LSetTable t] |
+   [LTick i] (listener i's cleanup loop) | [LConnShutdown i u] | [LLose u], for every list of
+   listeners.  [down]: backends nobody listens at. *)
+
+(* The proxy of listener j runs its own history and nothing else: after ANY history of the
+   process its state is the state of the single-listener machine of the theorems above
+   ([xrun], dialling with the listener's own TLS flag) on what listener j sees of that history
+   -- its own calls, ticks and shutdowns, every table change, every loss; calls and ticks of
+   the other listeners do not exist for it.  Hence every theorem above about [run] / [xrun]
+   holds for each listener of a process whatever the other listeners are. *)
+Theorem C16_listener_runs_own_history : forall ng down j ops ps,
+  nth_error (lrun ng down ps ops) j = option_map (fun l => ls_run ng down l (lproj j ops)) (nth_error ps j).
+Proof. exact listener_runs_own_history. Qed.
+Print Assumptions C16_listener_runs_own_history.
+
+Theorem C16_reachable_listener : forall ng down tls t ops j l,
+  nth_error (lrun ng down (l_init tls t) ops) j = Some l ->
+  exists b, nth_error tls j = Some b /\ ls_tls l = b /\
+            ls_px l = xrun ng (unreachable b down) (x_init t) (lproj j ops).
+Proof. exact reachable_listener. Qed.
+Print Assumptions C16_reachable_listener.
+
+(* the listeners and their TLS configuration are fixed by proxy.addr *)
+Theorem C16_listeners_fixed : forall ng down ops ps, map ls_tls (lrun ng down ps ops) = map ls_tls ps.
+Proof. exact listeners_fixed. Qed.
+Print Assumptions C16_listeners_fixed.
+
+(* every proxy of the process routes by the table that was set last *)
+Theorem C16_listeners_share_the_table : forall ng down tls t ops j l,
+  nth_error (lrun ng down (l_init tls t) ops) j = Some l -> s_tbl (x_st (ls_px l)) = last_table t ops.
+Proof. exact listeners_share_the_table. Qed.
+Print Assumptions C16_listeners_share_the_table.
+
+(* A call through listener i whose route picks backend u, reachable with the TLS configuration
+   of listener i (up, and not a grpcs:// target behind a listener without TLS -- F-C16-2), is
+   served: afterwards the live channel listener i's pool holds for u has a transport to u.
+   For every list of listeners, every position i, every history before. *)
+Theorem C16_call_served_with_own_tls : forall ng down tls t ops i l m p k u c,
+  nth_error (lrun ng down (l_init tls t) ops) i = Some l ->
+  call_conn ng (x_st (ls_px l)) m p k = Some (u, c) ->
+  unreachable (ls_tls l) down u = false ->
+  exists l', nth_error (lstep ng down (lrun ng down (l_init tls t) ops) (LCall i m p k)) i = Some l' /\
+             ls_tls l' = ls_tls l /\
+             In (c, u) (x_up (ls_px l')) /\ holds (s_pool (x_st (ls_px l'))) u c.
+Proof. exact call_served_with_own_tls. Qed.
+Print Assumptions C16_call_served_with_own_tls.
+
+(* in particular a TLS backend that is up is reached through EVERY listener that has a cert
+   source, wherever it stands in proxy.addr and whatever stands before it *)
+Theorem C16_tls_backend_served_through_tls_listener : forall ng down tls t ops i l m p k u c,
+  nth_error (lrun ng down (l_init tls t) ops) i = Some l ->
+  nth_error tls i = Some true -> mem u down = false ->
+  call_conn ng (x_st (ls_px l)) m p k = Some (u, c) ->
+  exists l', nth_error (lstep ng down (lrun ng down (l_init tls t) ops) (LCall i m p k)) i = Some l' /\
+             In (c, u) (x_up (ls_px l')) /\ holds (s_pool (x_st (ls_px l'))) u c.
+Proof. exact tls_backend_served_through_tls_listener. Qed.
+Print Assumptions C16_tls_backend_served_through_tls_listener.
+
+(* a call changes the proxy of its own listener only *)
+Theorem C16_call_leaves_other_listeners_alone : forall ng down ps i m p k j,
+  i <> j -> nth_error (lstep ng down ps (LCall i m p k)) j = nth_error ps j.
+Proof. exact call_leaves_other_listeners_alone. Qed.
+Print Assumptions C16_call_leaves_other_listeners_alone.
+
+(* a call without a matching route, through any listener, changes nothing in the process *)
+Theorem C16_no_route_changes_no_listener : forall ng down tls t ops i l m p k,
+  nth_error (lrun ng down (l_init tls t) ops) i = Some l ->
+  lookup (s_tbl (x_st (ls_px l))) ng (dsthost m) p = None ->
+  lstep ng down (lrun ng down (l_init tls t) ops) (LCall i m p k) = lrun ng down (l_init tls t) ops.
+Proof. exact no_route_changes_no_listener. Qed.
+Print Assumptions C16_no_route_changes_no_listener.
+
+(* what a backend sees of the whole process: begun = ended + open, and never more open
+   connections than the process has gRPC listeners (reuse per backend, per listener) *)
+Theorem C16_connections_bounded_by_listeners : forall ng down tls t ops u,
+  let ps := lrun ng down (l_init tls t) ops in
+  l_begun_at ps u = l_ended_at ps u + l_up_at ps u /\ l_up_at ps u <= N.of_nat (length tls).
+Proof. exact connections_bounded_by_listeners. Qed.
+Print Assumptions C16_connections_bounded_by_listeners.
+
+(* a call through listener i that reaches u opens exactly one connection at u iff listener i
+   itself has none to u, ends none, and no other backend sees anything *)
+Theorem C16_call_counts_per_listener : forall ng down tls t ops i l m p k u c,
+  let ps := lrun ng down (l_init tls t) ops in
+  nth_error ps i = Some l ->
+  call_conn ng (x_st (ls_px l)) m p k = Some (u, c) ->
+  unreachable (ls_tls l) down u = false ->
+  let ps' := lstep ng down ps (LCall i m p k) in
+  l_begun_at ps' u = l_begun_at ps u + (if x_up_at (ls_px l) u =? 0 then 1 else 0) /\
+  (forall v, l_ended_at ps' v = l_ended_at ps v) /\
+  (forall v, v <> u -> l_begun_at ps' v = l_begun_at ps v).
+Proof. exact call_counts_per_listener. Qed.
+Print Assumptions C16_call_counts_per_listener.
+
+(* once every cleanup loop of the process has woken up: every connection of a backend outside
+   the table has ended, whichever listener held it; a backend inside the table has seen nothing *)
+Theorem C16_tick_all_counts : forall ng down tls t ops u,
+  let ps := lrun ng down (l_init tls t) ops in
+  let ps' := lrun ng down ps (l_tick_all (length ps)) in
+  l_begun_at ps' u = l_begun_at ps u /\
+  l_ended_at ps' u = (if mem u (table_urls (last_table t ops)) then l_ended_at ps u else l_begun_at ps u).
+Proof. exact tick_all_counts. Qed.
+Print Assumptions C16_tick_all_counts.
+
+(* non-vacuity: proxy.addr = "grpc listener, grpcs listener", a route to a grpcs:// backend: the
+   call through the second listener meets the hypotheses of
+   C16_tls_backend_served_through_tls_listener and is served on one connection, which a later
+   call through that listener reuses; the first listener's call reaches nobody (F-C16-2) *)
+Theorem C16_listeners_nonvacuous :
+  let ps0 := l_init ex_ls_tls ex_ls_tbl in
+  let ps1 := lrun false [] ps0 [ex_ls_call 1] in
+  let ps2 := lrun false [] ps0 [ex_ls_call 1; ex_ls_call 0; ex_ls_call 1] in
+  nth_error ex_ls_tls 1 = Some true /\
+  option_map (fun l => call_conn false (x_st (ls_px l)) [] (bs "/pkg.Svc/Get") 0) (nth_error ps0 1) = Some (Some (ex_ls_u, 0)) /\
+  option_map (fun l => x_up (ls_px l)) (nth_error ps1 1) = Some [(0, ex_ls_u)] /\
+  (l_begun_at ps1 ex_ls_u, l_ended_at ps1 ex_ls_u) = (1, 0) /\
+  map (fun l => x_up (ls_px l)) ps2 = [[]; [(0, ex_ls_u)]] /\
+  (l_begun_at ps2 ex_ls_u, l_ended_at ps2 ex_ls_u) = (1, 0) /\
+  map (fun l => p_pool (s_pool (x_st (ls_px l)))) ps2 = [[(ex_ls_u, 0)]; [(ex_ls_u, 0)]].
+Proof. exact listeners_nonvacuous. Qed.
+Print Assumptions C16_listeners_nonvacuous.
+
+(* two TLS listeners: one connection each to the same backend, each reused by its listener,
+   both ended by the ticks that follow a table without the backend *)
+Theorem C16_listeners_own_pools_nonvacuous :
+  let ps := lrun false [] (l_init [true; true] ex_ls_tbl) [ex_ls_call 0; ex_ls_call 1; ex_ls_call 0; ex_ls_call 1] in
+  (l_begun_at ps ex_ls_u, l_ended_at ps ex_ls_u, l_up_at ps ex_ls_u) = (2, 0, 2) /\
+  (let ps' := lrun false [] ps (LSetTable [] :: l_tick_all 2) in
+   (l_begun_at ps' ex_ls_u, l_ended_at ps' ex_ls_u, l_up_at ps' ex_ls_u) = (2, 2, 0)).
+Proof. exact listeners_own_pools_nonvacuous. Qed.
+Print Assumptions C16_listeners_own_pools_nonvacuous.
+
+(* NOT the code -- the theorems above are not trivially true of any wiring: with ONE proxy built
+   for the first gRPC listener and handed to all of them ([lrun_shared]), behind
+   "grpc listener, grpcs listener" the call through the grpcs listener to a grpcs:// backend that
+   is up is dialled in the clear and reaches nobody; the code as it is opens the connection *)
+Theorem C16_shared_proxy_variant_refuted :
+  nth_error ex_ls_tls 1 = Some true /\ mem ex_ls_u [] = false /\
+  lookup ex_ls_tbl false (dsthost []) (bs "/pkg.Svc/Get") = Some [ex_ls_u] /\
+  x_up (lrun_shared false [] ex_ls_tls ex_ls_tbl [ex_ls_call 1]) = [] /\
+  x_begun_at (lrun_shared false [] ex_ls_tls ex_ls_tbl [ex_ls_call 1]) ex_ls_u = 0 /\
+  l_begun_at (lrun false [] (l_init ex_ls_tls ex_ls_tbl) [ex_ls_call 1]) ex_ls_u = 1.
+Proof. exact shared_proxy_variant_refuted. Qed.
+Print Assumptions C16_shared_proxy_variant_refuted.
